@@ -99,7 +99,9 @@ func TestC33(t *testing.T) {
 	stopDog := make(chan struct{})
 	defer close(stopDog)
 	go func() {
-		last, lastChange := int64(-1), time.Now()
+		// counts its own 2s ticks instead of comparing clock readings: a paused / resumed VM
+		// or a starved machine must not look like a hang
+		last, idleTicks := int64(-1), 0
 		for {
 			select {
 			case <-stopDog:
@@ -107,9 +109,15 @@ func TestC33(t *testing.T) {
 			case <-time.After(2 * time.Second):
 			}
 			if p := progressCounter.Load(); p != last {
-				last, lastChange = p, time.Now()
-			} else if time.Since(lastChange) > 90*time.Second {
-				fmt.Println("ENGINE-ERROR property=C33 no execution finished for 90s: a goroutine of the code under test is blocked on something testing/synctest does not see as durable (new sync.Mutex/Cond outside internal/replication?); teach k5/genoverlay.py")
+				last, idleTicks = p, 0
+				continue
+			}
+			idleTicks++
+			if idleTicks >= 150 {
+				buf := make([]byte, 64<<20)
+				buf = buf[:runtime.Stack(buf, true)]
+				_ = os.WriteFile(filepath.Join(ev.Root(), "h", "bin", "k5-hang-stacks.txt"), buf, 0o644)
+				fmt.Println("ENGINE-ERROR property=C33 no execution finished during 150 consecutive 2s watchdog ticks: a goroutine of the code under test is blocked on something testing/synctest does not see as durable (new sync.Mutex/Cond outside internal/replication?); teach k5/genoverlay.py (goroutine dump: h/bin/k5-hang-stacks.txt)")
 				os.Exit(2)
 			}
 		}
@@ -117,7 +125,7 @@ func TestC33(t *testing.T) {
 
 	var reports []*scenarioReport
 	anyUnknown := false
-	for _, cfg := range scenarios {
+	for si, cfg := range scenarios {
 		e := newExplorer(r, cfg, workers, known)
 		rep := &scenarioReport{e: e, cfg: cfg, completed: -1}
 		reports = append(reports, rep)
@@ -125,7 +133,7 @@ func TestC33(t *testing.T) {
 		for level := 0; level <= maxBound && len(tasks) > 0; level++ {
 			t0 := time.Now()
 			n := len(tasks)
-			next, ok := e.runLevel(t, level, tasks, level < maxBound || extraLevel, false)
+			next, ok := e.runLevel(t, level, tasks, level < maxBound || (extraLevel && si == 0), false)
 			rep.levels = append(rep.levels, fmt.Sprintf("deviations=%d: %d schedules in %.1fs (completed=%v)", level, n, time.Since(t0).Seconds(), ok))
 			if !ok {
 				break
